@@ -418,7 +418,8 @@ class C19PureQuery(Monitor):
         s1 = env.snapshot()
         again = env.c.get_next_tasks()
         s2 = env.snapshot()
-        key = lambda ts: json.dumps([[t["id"], t["route"], t.get("actions"), t.get("delay"), t.get("ctx")] for t in ts], sort_keys=True, default=str)
+        vis = lambda c: {k: v for k, v in (c or {}).items() if not k.startswith("__")}
+        key = lambda ts: json.dumps([[t["id"], t["route"], t.get("actions"), t.get("delay"), vis(t.get("ctx"))] for t in ts], sort_keys=True, default=str)
         if key(tasks) != key(again):
             self.fail(env, "answer-differs", "C19 two consecutive get_next_tasks() calls answered %s then %s" % ([t["id"] for t in tasks], [t["id"] for t in again]))
         if s1 != s2:
